@@ -395,9 +395,14 @@ pub fn run_c33(ctx: &mut Ctx) {
                 if data.is_empty() { "-".to_string() }
                 else { data.iter().map(|d| d.to_string()).collect::<Vec<_>>().join(",") }
             ));
-            let retained = (0..after.serial as usize).filter(|&s| {
-                after.deltas.get(s).map(|d| d.is_some()).unwrap_or(false)
-            }).count();
+            // The retained deltas' target serials, newest first (guarded
+            // accessor next to `PayloadHistory`).
+            let retained = {
+                let list: Vec<String> = history.verif_delta_serials().iter().map(|s| {
+                    u32::from(*s).to_string()
+                }).collect();
+                if list.is_empty() { "-".to_string() } else { list.join(",") }
+            };
             imp_steps.push(format!(
                 "ok={} cur={} ser={} ses={} cr={} d={} n={} done={}",
                 if returned_ok { 1 } else { 0 },
